@@ -104,6 +104,15 @@ def run(tier, replay=None, which=WHICH, pid=PID, harness_fn=None, cli_fn=None, c
     fuzzcheck.cli_sample(v, which, clis, 400 if tier == "quick" else 20000, rnd, corp)
     nvg = 200 if tier == "quick" else 5000
     items = [(bytegen.x_case if which == "x" else bytegen.asm_case)(rnd, corp) for _ in range(nvg)]
+    # the enumerated forms too: memcheck is the only monitor here that sees a read of an uninitialised value
+    if which == "x":
+        enum = [("kind-matrix", bytegen.kind_matrix_program(k, u).encode("latin-1")) for k in bytegen.KINDS for u in bytegen.USES]
+        enum += [("odd-semantics", f.encode("latin-1")) for f in bytegen.odd_x_forms()]
+    else:
+        enum = [("odd", f.encode("latin-1")) for f in bytegen.odd_asm_forms()]
+    if tier == "quick":
+        enum = enum[common.seed() % 2::2]
+    items += enum
     items = [(c, dta[:4096]) for c, dta in items]
     Wp = common.NCPU
     for cnt, bad in common.pmap(fuzzcheck.memcheck_worker, [(os.path.join(cli, tool), items[i::Wp]) for i in range(Wp)]):
